@@ -3,6 +3,7 @@ package c20
 import (
 	"bytes"
 	"fmt"
+	"strings"
 
 	based "github.com/evstack/ev-node/sequencers/based"
 
@@ -31,12 +32,13 @@ type monitor struct {
 	rere      map[uint64]bool   // heights with a confirmed re-release
 	passed    map[uint64]uint64 // height -> DA head when the scan position first moved past it
 	flagged   map[string]bool
+	torn      map[uint64]string // height queued durably while the durable scan position is still at or below it (crash) -> cause
 	broken    bool // a contract=1 scenario in which the caller contract was left (explicit echo / bad id)
 }
 
 func newMonitor(contract bool) *monitor {
 	return &monitor{contract: contract, released: map[string]int{}, touchedAt: map[uint64]int{}, rescanned: map[uint64]bool{},
-		rere: map[uint64]bool{}, passed: map[uint64]uint64{}, flagged: map[string]bool{}}
+		rere: map[uint64]bool{}, torn: map[uint64]string{}, passed: map[uint64]uint64{}, flagged: map[string]bool{}}
 }
 
 func effMax(max uint64) uint64 {
@@ -67,6 +69,9 @@ func findItem(l []item, id []byte) int {
 func (m *monitor) classifyMissing(s *scen, h uint64, id []byte, r *callRes, relNow map[string]bool) string {
 	eff := effMax(r.max)
 	qa, qb := flatten(r.qAfter), flatten(r.qBefore)
+	if w, ok := m.torn[h]; ok {
+		return "C20/crash/reordered/" + w
+	}
 	if findItem(qa, id) >= 0 && len(qa) > 0 {
 		if uint64(len(qa[0].tx)) > eff {
 			return "C20/order/oversize-tx-overtaken"
@@ -156,7 +161,9 @@ func (m *monitor) afterCall(c *hx.Ctx, s *scen, r *callRes, contractCall bool) {
 			continue
 		}
 		if first, dup := m.released[string(id)]; dup {
-			if m.rescanned[h] {
+			if w, ok := m.torn[h]; ok {
+				c.Report("C20/crash/duplicated/"+w, fmt.Sprintf("call %d releases id %s (height %d, index %d) again (first in call %d): a crash inside an earlier call left the height both in the persisted carry-over and ahead of the persisted scan position", k, hx.Hex(id), h, i, first))
+			} else if m.rescanned[h] {
 				m.rere[h] = true
 				c.Report("C20/exactly-once/height-rereleased", fmt.Sprintf("call %d releases id %s (height %d, index %d) again (first in call %d): the scan restarted at height %d although its txs had been taken", k, hx.Hex(id), h, i, first, h))
 			} else {
@@ -184,7 +191,9 @@ func (m *monitor) afterCall(c *hx.Ctx, s *scen, r *callRes, contractCall bool) {
 	for _, it := range qa {
 		if h, _, ok := splitID(it.id); ok {
 			if _, dup := m.released[string(it.id)]; dup && findItem(qb, it.id) < 0 {
-				if m.rescanned[h] {
+				if w, ok := m.torn[h]; ok {
+					c.Report("C20/crash/duplicated/"+w, fmt.Sprintf("call %d queues id %s (height %d) again although it was released: a crash inside an earlier call left the height both in the persisted carry-over and ahead of the persisted scan position", k, hx.Hex(it.id), h))
+				} else if m.rescanned[h] {
 					m.rere[h] = true
 					c.Report("C20/exactly-once/height-rereleased", fmt.Sprintf("call %d queues id %s (height %d) again although it was released: the scan restarted at height %d", k, hx.Hex(it.id), h, h))
 				} else {
@@ -245,6 +254,105 @@ func (m *monitor) afterCall(c *hx.Ctx, s *scen, r *callRes, contractCall bool) {
 	}
 	if m.restarts > 0 {
 		c.Hit("call-after-restart")
+	}
+}
+
+// afterCrash: the call r ran on the real sequencer, the process died when the first k of its durable writes
+// (names) were on disk, its answer was NOT delivered; img is the durable image the restarted sequencer sees.
+// Clause "never drops ... survive a restart" across a crash inside a call:
+//   C20/crash/dropped/pop-saved-before-answer-returned            the lost tx was popped from the persisted carry-over by the dying call
+//   C20/crash/dropped/scan-position-saved-before-answer-returned  the lost tx was scanned by the dying call and the position past it is on disk
+//   C20/crash/dropped/not-in-undelivered-answer                   anything else (a tx the dying call did not even try to release)
+//   C20/crash/duplicated|reordered/<write>-saved-before-<write>   observed LATER, when a height left both in the persisted queue and at/above
+//                                                                 the persisted position is released out of order / again (afterCall)
+func (m *monitor) afterCrash(c *hx.Ctx, s *scen, r *callRes, k int, names []string, img map[string][]byte, contractCall bool) {
+	kc := m.callNo
+	m.callNo++
+	if !contractCall {
+		m.broken = true
+	}
+	if !m.contract || m.broken {
+		return
+	}
+	if r.kind != "batch" && r.kind != "nil" {
+		c.Report("C20/error/unexpected-"+r.kind, fmt.Sprintf("call %d: a caller that keeps the contract got %s", kc, r.kind))
+		return
+	}
+	window := "before-the-first-write"
+	cause := "no-write-before-crash"
+	if k > 0 && k <= len(names) {
+		nxt := "answer-returned"
+		if k < len(names) {
+			nxt = names[k]
+		}
+		window = "between " + names[k-1] + " and " + nxt
+		cause = strings.TrimSuffix(names[k-1], "-save") + "-saved-before-" + strings.TrimSuffix(nxt, "-save")
+	}
+	scanStart := s.start
+	if r.posBefore != nil && *r.posBefore > scanStart {
+		scanStart = *r.posBefore
+	}
+	pos := s.start
+	if p := readPos(img); p != nil && *p > pos {
+		pos = *p
+	}
+	if pos < scanStart {
+		c.Report("C20/restart/scan-position-regressed", fmt.Sprintf("crash in call %d (%s): %d -> %d", kc, window, scanStart, pos))
+	}
+	qe, _ := readQueue(img)
+	q := flatten(qe)
+	for _, it := range q {
+		if h, _, ok := splitID(it.id); ok {
+			if _, seen := m.touchedAt[h]; !seen {
+				m.touchedAt[h] = kc
+			}
+			if h >= pos {
+				if _, ok := m.torn[h]; !ok {
+					m.torn[h] = cause
+					c.Hit("crash:torn-pushback")
+				}
+			}
+		}
+	}
+	for h := scanStart; h < pos && h < scanStart+4096; h++ {
+		if _, ok := m.passed[h]; !ok {
+			m.passed[h] = s.da.head
+		}
+	}
+	und := map[string]bool{}
+	for _, id := range r.ids {
+		und[string(id)] = true
+	}
+	qb := flatten(r.qBefore)
+	lost := 0
+	for h := s.start; h < s.da.head; h++ {
+		_, touched := m.touchedAt[h]
+		_, torn := m.torn[h]
+		if !(h < pos || (touched && !torn)) {
+			continue
+		}
+		for i := range s.da.blobs[h] {
+			y := mkID(h, i)
+			if _, ok := m.released[string(y)]; ok || m.flagged[string(y)] || findItem(q, y) >= 0 {
+				continue
+			}
+			m.flagged[string(y)] = true
+			lost++
+			what := fmt.Sprintf("call %d died %s (after %d of its %d durable writes), its answer (%d txs) was not delivered: the DA tx (height %d, index %d) is neither released nor in the persisted carry-over, and the persisted scan position %d will not come back to it", kc, window, k, len(names), len(r.ids), h, i, pos)
+			switch {
+			case !und[string(y)]:
+				c.Report("C20/crash/dropped/not-in-undelivered-answer", what)
+			case findItem(qb, y) >= 0:
+				c.Report("C20/crash/dropped/pop-saved-before-answer-returned", what)
+			case k == len(names) && k > 0 && names[k-1] == "scan-position-save":
+				c.Report("C20/crash/dropped/scan-position-saved-before-answer-returned", what)
+			default:
+				c.Report("C20/crash/dropped/"+cause, what)
+			}
+		}
+	}
+	if lost == 0 {
+		c.Hit("crash:nothing-lost")
 	}
 }
 
